@@ -45,6 +45,8 @@ class Walk:
         self.requests = {}       # (loader, cache key) -> (name, parent string)
         self.stopped = False     # walk left the statement's domain
         self.ended = False       # an error ended the run
+        self.err = obs['err']    # outcome of the current root run
+        self.swallow = 0         # depth of enclosing `raiseError: false` pype steps
 
     def failure(self, clause, msg, fp=None):
         self.fails.append(fail(clause, msg, fp or clause))
@@ -114,7 +116,8 @@ class Walk:
         collided = key in self.requests and self.requests[key] != (name, pstr)
         self.requests.setdefault(key, (name, pstr))
 
-        err = self.obs['err']
+        err = self.err
+        sw = self.swallow > 0     # inside a `raiseError: false` pype: errors are not observable
         if expect is not None and self.files[expect].get('silent'):
             # a real built-in pipeline (no probe inside): it must simply not be "not found"
             if err is not None and err[0] == PNF and (name + '.yaml') in err[1]:
@@ -122,8 +125,11 @@ class Walk:
                 self.failure('first-existing', f'request {name!r}: {expect} exists but {err!r}',
                              'existing-not-found')
             return
-        ev = self.next_f()
         where = f'request {name!r} from {caller["file"] if caller else "root"} ({why})'
+        if expect is None and sw:
+            self.ended = True        # swallowed not-found: nothing to observe, the caller goes on
+            return
+        ev = self.next_f()
         if expect is None:
             # nothing exists: must be a not-found error naming the places searched
             if ev is not None:
@@ -240,7 +246,7 @@ class Walk:
                                      f'{expect}: imported {nxt[1]} instead of {sibling}',
                                      'module-wrong-file')
         else:
-            if f.get('mod') and err is not None and err[0] == PMNF:
+            if f.get('mod') and (sw or (err is not None and err[0] == PMNF)):
                 # not promised for pipelines loaded by a custom loader
                 nxt = self.trace[self.pos] if self.pos < len(self.trace) else None
                 if nxt is None or nxt[0] != 'm':
@@ -251,11 +257,16 @@ class Walk:
             if (d + '/' + f['mod'] + '.py') not in self.mods:
                 # module is not next to the pipeline: importability not promised
                 nxt = self.trace[self.pos] if self.pos < len(self.trace) else None
-                if (nxt is None or nxt[0] != 'm') and err is not None and err[0] == PMNF:
+                if (nxt is None or nxt[0] != 'm') and (sw or (err is not None and err[0] == PMNF)):
                     self.ended = True
                     return
         for c in f.get('calls', []):
+            swallow = 'raise' in c and not c['raise']
+            self.swallow += swallow
             self.visit(c, info)
+            self.swallow -= swallow
+            if swallow and self.ended and not self.stopped:
+                self.ended = False       # raiseError: false - the error stays inside that child
             if self.stopped or self.ended:
                 return
 
@@ -267,18 +278,35 @@ class Walk:
             self.failure('search-roots', f'search roots {env} differ from {want}', 'search-roots')
         if not self.obs.get('syspath_prefix_kept', True):
             self.failure('sys-path', 'pre-existing sys.path entries were changed', 'sys-path-prefix')
-        call = {'name': inv['name']}
-        if inv.get('loader'):
-            call['loader'] = inv['loader']
-        self.visit(call, None)
-        if not self.stopped and not self.ended:
-            if self.next_f() is not None:
-                self.failure('first-existing', 'more pipelines ran than the layout calls for',
-                             'extra-pipeline')
-            elif self.obs['err'] is not None:
-                self.failure('not-found-error',
-                             f'every requested pipeline exists but the run failed: {self.obs["err"]!r}',
-                             'unexpected-error')
+        # consecutive root runs of one process: the trace is cut at the run markers
+        runs, cur = [], []
+        for e in self.obs['trace']:
+            if e[0] in ('run-ok', 'run-err'):
+                runs.append((cur, None if e[0] == 'run-ok' else e[1:3]))
+                cur = []
+            else:
+                cur.append(e)
+        runs.append((cur, self.obs['err']))
+        invs = [inv] + list(self.case.get('more_invokes', []))
+        if len(runs) != len(invs):
+            self.failure('first-existing', f'{len(invs)} root runs requested, {len(runs)} observed', 'run-count')
+            return self.fails
+        for inv, (trace, err) in zip(invs, runs):
+            self.trace, self.err, self.pos, self.ended = trace, err, 0, False
+            if self.stopped:
+                break
+            call = {'name': inv['name']}
+            if inv.get('loader'):
+                call['loader'] = inv['loader']
+            self.visit(call, None)
+            if not self.stopped and not self.ended:
+                if self.next_f() is not None:
+                    self.failure('first-existing', 'more pipelines ran than the layout calls for',
+                                 'extra-pipeline')
+                elif err is not None:
+                    self.failure('not-found-error',
+                                 f'every requested pipeline exists but the run failed: {err!r}',
+                                 'unexpected-error')
         return self.fails
 
 
